@@ -26,7 +26,7 @@ ASSUMPTIONS = ["each rank has >= 1 complete event", "0 <= ts <= 2^52 (epoch offs
                "JSON backend; ijson back-ends not installed; JSON reading stubbed"]
 STUBS = ["hta.common.trace_parser.parse_trace_dict", "Trace._validate_trace_files", "plotly", "logging"]
 KINDS = "ORKTMFI"
-COMPLETE = set("ORK")
+COMPLETE = set("ORKZz")      # Z: kernel with stream 0 / correlation 0, z: launch call with correlation 0
 
 
 def skeletons(tier):
@@ -44,6 +44,8 @@ def skeletons(tier):
     # ts/dur may become int8/int16 columns whose sums must still be right (dtype width decided by the solver)
     for w in (["O", "K", "OK", "RK", "KM"] if tier == "quick" else ["O", "K", "R", "OK", "RK", "KM", "OO", "KK", "OKR"]):
         out.append({"id": f"small-{w}", "ranks": [w], "params": {"frac": False, "small": True}})
+    for w in ["Z", "z", "OZ", "zZ", "OzZ"]:
+        out.append({"id": f"int-{w}", "ranks": [w], "params": {"frac": False}})
     pairs = [("O", "K"), ("OK", "RM"), ("MK", "TO"), ("OR", "O"), ("KI", "FO"), ("RK", "RK")]
     if tier == "thorough":
         ws = ["".join(w) for w in itertools.product("ORKTM", repeat=2) if set(w) & COMPLETE]
@@ -76,6 +78,13 @@ def build(sk):
                 pid, tid = r, 7 + i
                 e = TG.kernel("gemm_kernel", ts, dur, stream=7 + i, corr=50 + i, pid=pid)
                 x = {"name": "gemm_kernel", "cat": "kernel", "stream": 7 + i, "corr": 50 + i}
+            elif ch == "Z":
+                pid, tid = r, 0
+                e = TG.kernel("gemm_kernel", ts, dur, stream=0, corr=0, pid=pid)
+                x = {"name": "gemm_kernel", "cat": "kernel", "stream": 0, "corr": 0}
+            elif ch == "z":
+                e = TG.runtime("cudaLaunchKernel", ts, dur, corr=0, tid=tid, pid=pid)
+                x = {"name": "cudaLaunchKernel", "cat": "cuda_runtime", "stream": -1, "corr": 0}
             elif ch == "T":
                 e = TG.trace_span(ts, dur)
                 x = None
